@@ -8,3 +8,4 @@ pub mod codecs;
 pub mod pipes;
 pub mod session;
 pub mod shutdown;
+pub mod socks;
